@@ -606,3 +606,175 @@ fn cursor_seek_into_emptied_leaf_node() {
     std::mem::forget(cur);
     std::mem::forget(b);
 }
+
+// ---- C01-Ob5 / C05-Ob5: ONE run of InnerBucket::merge_nodes (the commit-time rebalance) from a state materialised
+//      through the real InnerBucket::node / Node::from_page / Node::delete: an underfull leaf is merged into its
+//      sibling, its page run is given back once, the parent loses the entry, a root left with one child collapses
+//      (its whole run given back, the child promoted), and every surviving materialised node stays attached.
+fn k2(x: &[u8]) -> [u8; 2] {
+    assert!(x.len() == 2);
+    [x[0], x[1]]
+}
+
+fn leaf_is(n: &Node, exp: &[[u8; 2]]) -> bool {
+    match &n.data {
+        NodeData::Leaves(l) => {
+            let mut ok = l.len() == exp.len();
+            let mut i = 0;
+            while i < exp.len() {
+                ok = ok && i < l.len() && l[i].is_kv() && k2(l[i].key()) == exp[i];
+                i += 1;
+            }
+            ok
+        }
+        _ => false,
+    }
+}
+
+fn branches_are(n: &Node, exp: &[([u8; 2], u64)]) -> bool {
+    match &n.data {
+        NodeData::Branches(b) => {
+            let mut ok = b.len() == exp.len();
+            let mut i = 0;
+            while i < exp.len() {
+                ok = ok && i < b.len() && k2(b[i].key()) == exp[i].0 && b[i].page == exp[i].1;
+                i += 1;
+            }
+            ok
+        }
+        _ => false,
+    }
+}
+
+/// root branch page 3 (run of 1 + `ov` pages) over leaf pages 6 {a0,a1} and 7 {c0,c1}; the transaction has removed
+/// all but `keep` entries of leaf `which`; then merge_nodes
+fn merge_two_leaf_case(ov: u64, which: usize, keep: usize, symbolic: bool) {
+    let (a, c): ([[u8; 2]; 2], [[u8; 2]; 2]) = if symbolic { (kani::any(), kani::any()) } else { ([[1, 0], [2, 0]], [[3, 0], [4, 0]]) };
+    kani::assume(a[0] < a[1] && a[1] < c[0] && c[0] < c[1]);
+    put_leaf_page(6, 0, &[Ent { t: 0, k: &a[0], v: &[7] }, Ent { t: 0, k: &a[1], v: &[8] }]);
+    put_leaf_page(7, 0, &[Ent { t: 0, k: &c[0], v: &[9] }, Ent { t: 0, k: &c[1], v: &[10] }]);
+    put_branch_page(3, ov, &[(&a[0], 6), (&c[0], 7)]);
+    let b = mk_bucket(3, true);
+    let mut ib = b.inner.borrow_mut();
+    let pg = 6 + which as u64;
+    ib.page_parents.insert(pg, 3);
+    {
+        let n = ib.node(PageNodeID::Page(pg), None);
+        let mut n = n.borrow_mut();
+        if keep < 2 {
+            std::mem::forget(n.delete(1));
+        }
+        if keep < 1 {
+            std::mem::forget(n.delete(0));
+        }
+    }
+    ib.dirty = true;
+    assert!(ib.nodes.len() == 2, "the leaf and (through it) the root are materialised");
+    let mut fl = b.freelist.borrow_mut();
+    ib.merge_nodes(&mut fl);
+    // the emptied / underfull leaf is gone: deleted, its page given back
+    let other = 7 - which as u64;
+    assert!(ib.nodes[0].borrow().deleted && ib.nodes[0].borrow().page_id == 0);
+    // the root was left with a single child: it collapses, the child page becomes the root
+    assert!(ib.nodes[1].borrow().deleted, "a root branch left with one child is dissolved");
+    assert!(ib.meta.root_page == other, "JV-C01-COLLAPSE: the remaining child becomes the bucket's root");
+    assert!(matches!(ib.root, PageNodeID::Page(p) if p == other));
+    if keep == 0 {
+        assert!(ib.nodes.len() == 2, "nothing to move: the sibling is not materialised");
+    } else {
+        assert!(ib.nodes.len() == 3, "the sibling was materialised to take the entries");
+        let s = ib.nodes[2].borrow();
+        assert!(!s.deleted && s.page_id == other);
+        let exp = if which == 0 { [a[0], c[0], c[1]] } else { [a[0], a[1], c[0]] };
+        assert!(leaf_is(&s, &exp), "JV-C01-MERGE: the sibling holds its own entries plus the moved one, in key order");
+        assert!(ib.page_node_ids.get(&other) == Some(&2));
+    }
+    // every page of both dissolved runs is pending under this transaction, once; nothing else; nothing allocated
+    let p = crate::freelist::jv::pending_of(&fl.inner, 7);
+    assert!(p.is_some());
+    if let Some(p) = p {
+        assert!(p.len() == 2 + ov as usize, "JV-C05-MERGE-FREE: exactly the pages of the dissolved leaf and of the dissolved root run are freed");
+        assert!(pending_has_once(p, pg) && pending_has_once(p, 3));
+        if ov == 1 {
+            assert!(pending_has_once(p, 4), "the overflow page of the root run is freed too");
+        }
+    }
+    assert!(fl.pages.len() == 0);
+    std::mem::forget(fl);
+    std::mem::forget(ib);
+}
+
+// @ob props=C01,C05,C10 tier=quick cap=700 mem=8 fns=InnerBucket::merge_nodes,InnerBucket::node,Node::from_page,Node::needs_merging,NodeData::merge,Node::free_page,TxFreelist::free,Node::insert_child,Node::delete bound="branch root (1 page) over two leaf pages with 2 entries each, concrete keys (one execution, all checks on); the FIRST leaf is left with one entry; one run of merge_nodes" unwind=5
+#[kani::proof]
+#[kani::unwind(5)]
+fn bucket_merge_first_leaf_into_right() {
+    merge_two_leaf_case(0, 0, 1, false);
+}
+// @ob props=C01,C05,C10 tier=quick cap=700 mem=8 fns=InnerBucket::merge_nodes,InnerBucket::node,Node::from_page,Node::needs_merging,NodeData::merge,Node::free_page,TxFreelist::free,Node::insert_child,Node::delete bound="same tree; the SECOND leaf is left with one entry (left sibling takes it); one run of merge_nodes" unwind=5
+#[kani::proof]
+#[kani::unwind(5)]
+fn bucket_merge_second_leaf_into_left() {
+    merge_two_leaf_case(0, 1, 1, false);
+}
+// @ob props=C01,C05,C10 tier=quick cap=700 mem=8 fns=InnerBucket::merge_nodes,InnerBucket::node,Node::from_page,Node::needs_merging,Node::free_page,TxFreelist::free bound="same tree with 4 symbolic ascending 2-byte keys, root run of TWO pages (overflow 1); the first leaf is emptied completely; one run of merge_nodes" unwind=5
+#[kani::proof]
+#[kani::unwind(5)]
+fn bucket_merge_emptied_leaf_multi_page_root() {
+    merge_two_leaf_case(1, 0, 0, true);
+}
+
+/// three levels: root 3 over inner branches 4 {6,7} and 5 {8,9}; leaves 6..9 with two keys each; the transaction
+/// removed one entry of leaf 6; merge_nodes must fold leaf 6 into 7, then inner 4 into inner 5 TOGETHER WITH the
+/// materialised (modified) leaf node below it, then collapse the root
+fn merge_three_level_case(symbolic: bool) {
+    let k: [[u8; 2]; 8] = if symbolic { kani::any() } else { [[1, 0], [2, 0], [3, 0], [4, 0], [5, 0], [6, 0], [7, 0], [8, 0]] };
+    kani::assume(k[0] < k[1] && k[1] < k[2] && k[2] < k[3] && k[3] < k[4] && k[4] < k[5] && k[5] < k[6] && k[6] < k[7]);
+    put_leaf_page(6, 0, &[Ent { t: 0, k: &k[0], v: &[7] }, Ent { t: 0, k: &k[1], v: &[7] }]);
+    put_leaf_page(7, 0, &[Ent { t: 0, k: &k[2], v: &[7] }, Ent { t: 0, k: &k[3], v: &[7] }]);
+    put_leaf_page(8, 0, &[Ent { t: 0, k: &k[4], v: &[7] }, Ent { t: 0, k: &k[5], v: &[7] }]);
+    put_leaf_page(9, 0, &[Ent { t: 0, k: &k[6], v: &[7] }, Ent { t: 0, k: &k[7], v: &[7] }]);
+    put_branch_page(4, 0, &[(&k[0], 6), (&k[2], 7)]);
+    put_branch_page(5, 0, &[(&k[4], 8), (&k[6], 9)]);
+    put_branch_page(3, 0, &[(&k[0], 4), (&k[4], 5)]);
+    let b = mk_bucket(3, true);
+    let mut ib = b.inner.borrow_mut();
+    ib.page_parents.insert(6, 4);
+    ib.page_parents.insert(4, 3);
+    {
+        let n = ib.node(PageNodeID::Page(6), None);
+        let mut n = n.borrow_mut();
+        std::mem::forget(n.delete(1));
+    }
+    ib.dirty = true;
+    assert!(ib.nodes.len() == 3, "leaf 6, inner branch 4 and the root are materialised");
+    let mut fl = b.freelist.borrow_mut();
+    ib.merge_nodes(&mut fl);
+    assert!(ib.nodes.len() == 5);
+    assert!(ib.nodes[0].borrow().deleted && ib.nodes[1].borrow().deleted && ib.nodes[2].borrow().deleted);
+    assert!(ib.meta.root_page == 5, "the surviving inner branch becomes the root");
+    {
+        let leaf7 = ib.nodes[3].borrow();
+        let inner5 = ib.nodes[4].borrow();
+        assert!(!leaf7.deleted && leaf7.page_id == 7 && leaf_is(&leaf7, &[k[0], k[2], k[3]]), "leaf 7 took the entry left in leaf 6");
+        assert!(!inner5.deleted && inner5.page_id == 5);
+        assert!(branches_are(&inner5, &[(k[2], 7), (k[4], 8), (k[6], 9)]), "inner branch 5 took the entry of the dissolved inner branch 4");
+        // the modified leaf node must stay attached to a live node, or the commit would never write it
+        assert!(leaf7.parent == Some(4), "JV-C01-MERGE-CHILDREN: a dissolved branch hands its materialised children to the sibling");
+        assert!(inner5.children.len() == 1 && inner5.children[0] == 3, "JV-C01-MERGE-CHILDREN: the sibling now owns the modified child node");
+    }
+    let p = crate::freelist::jv::pending_of(&fl.inner, 7);
+    assert!(p.is_some());
+    if let Some(p) = p {
+        assert!(p.len() == 3 && pending_has_once(p, 6) && pending_has_once(p, 4) && pending_has_once(p, 3), "leaf 6, inner branch 4 and the old root are freed exactly once");
+    }
+    assert!(fl.pages.len() == 0);
+    std::mem::forget(fl);
+    std::mem::forget(ib);
+}
+
+// @ob props=C01,C05 tier=thorough cap=3000 mem=12 fns=InnerBucket::merge_nodes,InnerBucket::node,Node::from_page,Node::needs_merging,NodeData::merge,Node::free_page,TxFreelist::free,Node::insert_child bound="three-level tree (root, 2 inner branches, 4 leaves of 2 entries), concrete keys (one execution, all checks on); leaf 6 left with one entry; one run of merge_nodes" unwind=6
+#[kani::proof]
+#[kani::unwind(6)]
+fn bucket_merge_three_levels_concrete() {
+    merge_three_level_case(false);
+}
